@@ -140,6 +140,7 @@ func (x *c17) variants(chunks []*blob) []variant {
 			return fromUcase(runBS(f, r, z, "none", block))
 		}
 	}
+	// SpliceBlob and FetchBlob first: they used to drop the retryable class (two repaired defects)
 	vs := []variant{
 		{"splice", true, func() (cls, []string, []string) {
 			whole := regBlob(append(append([]byte{}, chunks[0].data...), chunks[1].data...))
@@ -153,6 +154,7 @@ func (x *c17) variants(chunks []*blob) []variant {
 			got, _ := f.splice(1, cds, &d)
 			return got, []string{fmt.Sprintf("FSplice 1 %s (Some %s) \"\" true %s %s", CList(ct), d.coq(), CZ(whole.cid), CS(nextRnd()))}, []string{"OSt " + got.coq()}
 		}},
+		{"fetch", true, func() (cls, []string, []string) { return fromUcase(runFetch(f, r, "none", block)) }},
 		{"http-cas", true, func() (cls, []string, []string) { return fromUcase(runHTTP(f, r, false, "none", block)) }},
 		{"http-cas-zstd", true, func() (cls, []string, []string) { return fromUcase(runHTTP(f, r, true, "none", block)) }},
 		{"http-ac", true, func() (cls, []string, []string) {
@@ -184,7 +186,6 @@ func (x *c17) variants(chunks []*blob) []variant {
 			u := runAC(f, r, "none", 3000)
 			return u.got, u.ops[:1], u.obs[:1]
 		}},
-		{"fetch", true, func() (cls, []string, []string) { return fromUcase(runFetch(f, r, "none", block)) }},
 	}
 	return vs
 }
@@ -328,7 +329,7 @@ func hardLimitCase(e *env, h int) {
 			x.upload(v.name, "admitted", v.run)
 			x.stats()
 			// now the cache is full and hard_limit = max_size leaves no headroom: refused although nothing is queued
-			got := x.upload("http-cas", "", vs[1].run)
+			got := x.upload("http-cas", "", vs[2].run)
 			e.rep.Count("c17.full-cache-with-hard-limit-equal-max-size." + string(got))
 		} else {
 			for _, v := range vs {
